@@ -14,8 +14,13 @@ sd=/verif/seeded/$seed
 own=${seed%%-*}
 props=("$@"); [ ${#props[@]} -eq 0 ] && props=($own)
 wt=/tmp/seedwt_$seed
+if [ "${SEED_CLONE:-0}" = 1 ]; then
+  # independent plain copy of /repo HEAD (no shared git state: several seeds may run at once)
+  rm -rf $wt; mkdir -p $wt; git -C /repo archive HEAD | tar -x -C $wt; (cd $wt && git init -q) || exit 2
+else
 rm -rf $wt; git -C /repo worktree prune
 git -C /repo worktree add -q --detach $wt HEAD || exit 2
+fi
 applies=no; builds=no; suite=no; demo_changed="n/a"; demo_clean="n/a"
 pkgdir() { # package clause of a demo test -> directory in the repository
   case "$1" in
@@ -32,14 +37,14 @@ rundemo() { # $1 = tree; prints the demo's exit status (0 = behaves as the prope
     inp=/dev/null; [ -f $sd/stdin.txt ] && inp=$sd/stdin.txt
     (cd $1 && timeout 180 go run ./cmd/calc $sd/demo.calc < $inp 2>&1 | diff -q - $exp >/dev/null 2>&1); echo $?
   elif [ -f $sd/run_demo.sh ]; then
-    (timeout 180 sh $sd/run_demo.sh $1 >/tmp/seedwt_demo.out 2>&1); echo $?
+    (timeout 180 sh $sd/run_demo.sh $1 >/tmp/seedwt_demo_$seed.out 2>&1); echo $?
   elif ls $sd/*_test.go >/dev/null 2>&1; then
     rc=0
     for t in $sd/*_test.go; do
       d=$(pkgdir $(grep -m1 '^package' $t | awk '{print $2}'))
       [ -z "$d" ] && { echo "nopkg"; return; }
       cp $t $1/$d/zz_seed_demo_test.go
-      (cd $1 && timeout 300 go test -vet=off -count=1 ./$d >/tmp/seedwt_demo.out 2>&1) || rc=1
+      (cd $1 && timeout 300 go test -vet=off -count=1 ./$d >/tmp/seedwt_demo_$seed.out 2>&1) || rc=1
       rm -f $1/$d/zz_seed_demo_test.go
     done
     echo $rc
@@ -51,10 +56,11 @@ demo_clean=$(rundemo $wt)
 if git -C $wt apply $sd/patch.diff 2>/dev/null; then
   applies=yes
   if (cd $wt && go build ./... 2>/dev/null); then builds=yes; fi
-  if (cd $wt && go test -vet=off -count=1 ./... >/tmp/seedwt_suite.out 2>&1); then suite=pass; else suite=FAIL; fi
+  if (cd $wt && go test -vet=off -count=1 ./... >/tmp/seedwt_suite_$seed.out 2>&1); then suite=pass; else suite=FAIL; fi
   demo_changed=$(rundemo $wt)
 fi
-git -C /repo worktree remove --force $wt; rm -rf $wt
+if [ "${SEED_CLONE:-0}" = 1 ]; then rm -rf $wt; else git -C /repo worktree remove --force $wt; rm -rf $wt; fi
+rm -f /tmp/seedwt_demo_$seed.out /tmp/seedwt_suite_$seed.out
 # checks on /repo itself
 results="{"
 sep=""
